@@ -289,6 +289,13 @@ def call_model(I, fn, args, kwargs):
             return hasattr("", n)
         raise Unsupported("hasattr on symbolic value")
     if fn is getattr:
+        if len(args) == 3:
+            try:
+                return I.getattr_(args[0], args[1])
+            except PyRaise as ex:
+                if isinstance(ex.exc, AttributeError):
+                    return args[2]
+                raise
         return I.getattr_(args[0], args[1])
     if fn is any or fn is all:
         acc = fn is all
